@@ -184,7 +184,10 @@ pub trait ElementReference<'a, Traits: ?Sized + Trait = dyn None, M: MemBuilder 
 ///
 /// [`AnyVec::get`]: crate::AnyVec::get
 pub struct ElementRef<'a, Traits: ?Sized + Trait = dyn None, M: MemBuilder = mem::Default>(
-    pub(crate) ManuallyDrop<Element<'a, Traits, M>>
+    pub(crate) ManuallyDrop<Element<'a, Traits, M>>,
+    // `ElementRef` is a shared (and `Clone`able) reference into the vector:
+    // it may be `Send` only if `&AnyVec` is.
+    pub(crate) PhantomData<&'a AnyVec<Traits, M>>
 );
 impl<'a, Traits: ?Sized + Trait, M: MemBuilder> ElementReference<'a, Traits, M> for ElementRef<'a, Traits, M>{}
 impl<'a, Traits: ?Sized + Trait, M: MemBuilder> Deref for ElementRef<'a, Traits, M>{
@@ -198,7 +201,7 @@ impl<'a, Traits: ?Sized + Trait, M: MemBuilder> Deref for ElementRef<'a, Traits,
 impl<'a, Traits: ?Sized + Trait, M: MemBuilder> Clone for ElementRef<'a, Traits, M>{
     #[inline]
     fn clone(&self) -> Self {
-        Self(ManuallyDrop::new(self.0.clone()))
+        Self(ManuallyDrop::new(self.0.clone()), PhantomData)
     }
 }
 
